@@ -708,7 +708,8 @@ fn convert_convolve_matrix(fe: SvgNode, primitives: &[Primitive]) -> Option<Kind
     }
 
     let divisor = fe.attribute(AId::Divisor).unwrap_or(kernel_sum);
-    if divisor.approx_zero_ulps(4) {
+    // The sum of finite kernel values can overflow.
+    if divisor.approx_zero_ulps(4) || !divisor.is_finite() {
         return None;
     }
 
